@@ -86,6 +86,11 @@ export class Hash256Writer {
   private bytesHashed = 0;
   private finished = false;
 
+  /** number of bytes of the canonical encoding written so far */
+  get bytesWritten(): number {
+    return this.bytesHashed;
+  }
+
   updateTag(value: string): void {
     this.updateByte(1);
     this.updateUtf8WithLength(value);
